@@ -25,12 +25,15 @@ from props import C20 as D   # shared trace format, generators and reference DOM
 
 PROP = "C05"
 ENGINE = "rcdom"
-LEAN_TARGETS = ["H5V.Props.C05"]
-AUDIT_IMPORTS = ["H5V.Props.C05"]
+LEAN_TARGETS = ["H5V.Props.C05", "H5V.Props.C05TB"]
+AUDIT_IMPORTS = ["H5V.Props.C05TB"]
 THEOREMS = ["H5V.Props.C05." + t for t in [
     "C05_contract_decidable", "C05_no_panic_partial", "C05_inv_preserved", "C05_run", "C05_monitor_sound",
     "C05_violation_panics", "C05_violation_corrupts", "C05_attrs_no_duplicates", "C05_create_element_attrs",
-]]
+]] + ["H5V.Props.C05TB." + t for t in [
+    # the HTML tree-builder model issues only contract-abiding calls, for every token list (Props/C05TB.lean)
+    "C05_tb_contract", "C05_tb_contract_fragment", "run_contract", "esc_sink", "C04_tb_total_full",
+    "C04_tb_total_full_fragment"]]
 TRUSTED = [
     "Lean 4 kernel; axioms ⊆ {propext, Classical.choice, Quot.sound} (audited per run)",
     "the contract `H5V.Model.Dom.Contract` is my reading of the trait documentation in "
